@@ -30,6 +30,9 @@ func calibrate(w *W, withMem bool) calib {
 	}
 	var ms runtime.MemStats
 	for i := 0; i < len(stmts); i += step {
+		if i%3000 < step {
+			heartbeat()
+		}
 		in := []byte(stmts[i].Text)
 		items, pv := safeTokenize(in)
 		if pv != "" {
